@@ -564,6 +564,10 @@ func deadlineOf(tier string) time.Duration {
 // RunCheck runs the property's enumeration in NShards worker subprocesses (the
 // interceptor is a process global), merges their reports, confirms one case
 // per signature, writes the evidence and prints the interface lines.
+// Extra, if set, contributes a part of the check that lives outside this
+// package; it adds violations to rep and returns its coverage.
+var Extra func(prop, tier string, rep *common.Report) (cov map[string]any, exhaustive bool, assumption string, code int)
+
 func RunCheck(prop, tier string) int {
 	t0 := time.Now()
 	rep := common.NewReport(prop)
@@ -728,8 +732,21 @@ func RunCheck(prop, tier string) int {
 	case "C13":
 		cov["rule"] = "term/vote storage: " + StateRule + ". Snapshot storage: " + SnapRule(tier == "thorough") + "; crash points of the last operation of each program: before every mutating call, after every byte prefix of every write (" + PrefixRule + "), after the last call. Recovery: NewStateStorage / NewSnapshotStorage first attempt, State() / SnapshotFile()+read all, then a continuation (one more SetState / one more snapshot) read back through a fresh storage."
 	}
+	assumptions := []string{"process-crash fault model (no power loss: unsynced data is not dropped, directory entries are durable once the call returned)", "single-threaded use of each storage in the enumerated programs"}
+	if Extra != nil {
+		// a part of the check that runs outside this package (cluster suites on the real storages)
+		ecov, eex, note, code := Extra(prop, tier, rep)
+		if code != 0 {
+			return code
+		}
+		if ecov != nil {
+			cov["cluster_part"] = ecov
+			cov["exhaustive"] = exhaustive && eex
+			assumptions = append(assumptions, note)
+		}
+	}
 	ev := &common.Evidence{PropertyID: prop, Tier: tier, Seed: common.Seed(), Level: "fault_enumeration", Coverage: cov,
-		Assumptions: []string{"process-crash fault model (no power loss: unsynced data is not dropped, directory entries are durable once the call returned)", "single-threaded use of each storage, as the library does"},
+		Assumptions: assumptions,
 		WallS:       time.Since(t0).Seconds(), Violations: len(rep.Violations)}
 	if total.Evaluations == 0 || total.Nontrivial < 2 {
 		fmt.Printf("INFRA: vacuous crash enumeration: evaluations=%d distinct_nontrivial=%d\n", total.Evaluations, total.Nontrivial)
